@@ -59,6 +59,13 @@ PROP = {'drive': ['Cmapx'], 'harness_files': ['area_cmapx.go'], 'modules': ['Sfn
                            '"Format4.Encode refuses (panics) or an independent OpenType format 4 lookup written in the '
                            'harness reads the map back at all 65536 codes" on the real code; the Lean side only supplies '
                            'the expected answer (the refusal itself is Model/Cmap4.lean pack = none)',
+                           'hand-laid-out cmap tables (stream cmapx.layout: every permutation of physical against record '
+                           'order for up to three subtables, tight / gapped / shared / partially overlapping, minimal 10- '
+                           'and 12-byte bodies, exact fit at the end of the table): the expected result is computed from '
+                           'the description of the layout, not from the model; crafted format 4 bodies (last segment with '
+                           'idRangeOffset reaching outside glyphIdArray, truncated array, missing or damaged sentinel) go '
+                           'through the format 4 streams cmap4.decode / cmap4.decspec; GetBest with undecodable '
+                           'higher-ranked candidates through cmapx.best / cmapx.bestidx',
                            'uint32 wrap of offsets in Table.Encode and of the length in Format12.Encode '
                            '(outputs of 4 GiB) is modelled (mod 2^32 / panic) but cannot be exercised'],
  'assumptions': ['Format12: a Go map uint32->glyph.ID is its list of entries sorted by key (Map32: keys strictly '
